@@ -487,7 +487,7 @@ func (v *Vue) callFunc(ctx *VueContext, fn any, args ...any) (any, error) {
 }
 
 func isNumericKind(k reflect.Kind) bool {
-	return (k >= reflect.Int && k <= reflect.Uint64) || k == reflect.Float32 || k == reflect.Float64
+	return (k >= reflect.Int && k <= reflect.Uintptr) || k == reflect.Float32 || k == reflect.Float64
 }
 
 // convertValue attempts common type conversions
@@ -521,7 +521,7 @@ func convertValue(val reflect.Value, targetType reflect.Type) (reflect.Value, bo
 	}
 
 	// Handle uint to string
-	if val.Kind() >= reflect.Uint && val.Kind() <= reflect.Uint64 && targetType.Kind() == reflect.String {
+	if val.Kind() >= reflect.Uint && val.Kind() <= reflect.Uintptr && targetType.Kind() == reflect.String {
 		return reflect.ValueOf(fmt.Sprintf("%d", val.Uint())), true
 	}
 
